@@ -106,6 +106,14 @@ DEFAULT_PORTS = {
 }
 
 
+def _uri_host(host: bytes) -> bytes:
+    # An IPv6 literal is enclosed in brackets wherever it appears in a URI
+    # or in a Host header. See RFC 3986, section 3.2.2.
+    if b":" in host and not host.startswith(b"["):
+        return b"[" + host + b"]"
+    return host
+
+
 def include_request_headers(
     headers: list[tuple[bytes, bytes]],
     *,
@@ -117,9 +125,9 @@ def include_request_headers(
     if b"host" not in headers_set:
         default_port = DEFAULT_PORTS.get(url.scheme)
         if url.port is None or url.port == default_port:
-            header_value = url.host
+            header_value = _uri_host(url.host)
         else:
-            header_value = b"%b:%d" % (url.host, url.port)
+            header_value = b"%b:%d" % (_uri_host(url.host), url.port)
         headers = [(b"Host", header_value)] + headers
 
     if (
@@ -304,9 +312,10 @@ class URL:
         )
 
     def __bytes__(self) -> bytes:
+        host = _uri_host(self.host)
         if self.port is None:
-            return b"%b://%b%b" % (self.scheme, self.host, self.target)
-        return b"%b://%b:%d%b" % (self.scheme, self.host, self.port, self.target)
+            return b"%b://%b%b" % (self.scheme, host, self.target)
+        return b"%b://%b:%d%b" % (self.scheme, host, self.port, self.target)
 
     def __repr__(self) -> str:
         return (
